@@ -1314,7 +1314,7 @@ class Engine:
             if sym > lb or n > self.concrete_loop_bound:
                 self.oblige(st, 'bound', None, 'loop:%s:%s' % (fr.fn.name[-24:], label), ins,
                             'loop bound (%d symbolic / %d total iterations) exceeded at %s' % (
-                                self.loop_bound, self.concrete_loop_bound, self.loc(ins)))
+                                lb, self.concrete_loop_bound, self.loc(ins)))
                 st.status = 'bound'
                 return
         fr.prev = fr.block
@@ -1869,4 +1869,4 @@ class Engine:
     concrete_loop_bound = 200
     # loops whose trip count is fixed by the data structure (slot scans) get their real bound; everything else
     # (retry loops) keeps the small symbolic bound
-    loop_bound_overrides = [('src/debt/mod.rs', 12), ('src/debt/fast.rs', 10), ('harness/src/', 12)]
+    loop_bound_overrides = [('src/debt/mod.rs', 40), ('src/debt/fast.rs', 12), ('harness/src/', 12)]
